@@ -42,6 +42,21 @@ HDRS = {('Subject',): b'Subject: t\r\n', ('Subject', 'Date'): b'Subject: t\r\nDa
         ('Message-Id', 'Subject'): b'Message-Id: <keep@x>\r\nSubject: t\r\n',
         ('Received', 'Subject', 'Date'): b'Received: from old; date\r\nSubject: t\r\nDate: keep\r\n'}
 BODY = b'body \xff\r\n.\r\n'
+CANON = {'date': 'Date', 'message-id': 'Message-Id', 'received': 'Received', 'subject': 'Subject'}
+
+
+def respell(block, rnd):
+    """field names are case-insensitive: the same header block with its names spelled differently"""
+    how = rnd.choice(['lower', 'upper', 'asis'])
+    if how == 'asis':
+        return block
+    out = []
+    for ln in block.split(b'\r\n'):
+        if b':' in ln:
+            n_, v_ = ln.split(b':', 1)
+            ln = (n_.lower() if how == 'lower' else n_.upper()) + b':' + v_
+        out.append(ln)
+    return b'\r\n'.join(out)
 
 
 def proj(r):
@@ -61,21 +76,27 @@ class RecStore(DictStorage):
         return DictStorage.write(self, envelope, timestamp)
 
 
-def run_case(chain, rcpts, hdkey):
+def run_case(chain, rcpts, hdkey, nth=1, block=None):
+    """nth = 2: the same queue (the same policy objects) is given the same message twice; the second one is reported, and
+    the aliasing probe covers the stored envelopes of both"""
     st = RecStore()
     q = Queue(st, None)
     for p in chain:
         q.add_policy(POLS[p]())
-    e = Envelope('s@x', list(rcpts))
-    e.parse(HDRS[hdkey] + b'\r\n' + BODY)
-    e.timestamp = 0
-    e.receiver = 'me'
-    e.client = {'name': 'c', 'ip': '1.1.1.1', 'host': 'h', 'protocol': 'SMTP'}
-    try:
-        q.enqueue(e)
-    except Exception as ex:  # noqa
-        return [{'t': 'raised', 'cls': type(ex).__name__}]
-    envs = st.written
+    first = 0
+    for k in range(nth):
+        e = Envelope('s@x', list(rcpts))
+        e.parse((block or HDRS[hdkey]) + b'\r\n' + BODY)
+        e.timestamp = 0
+        e.receiver = 'me'
+        e.client = {'name': 'c', 'ip': '1.1.1.1', 'host': 'h', 'protocol': 'SMTP'}
+        first = len(st.written)
+        try:
+            q.enqueue(e)
+        except Exception as ex:  # noqa
+            return [{'t': 'raised', 'cls': type(ex).__name__}]
+    allenvs = st.written
+    envs = st.written[first:]
     idmap = {}
 
     def oid(o):
@@ -87,18 +108,18 @@ def run_case(chain, rcpts, hdkey):
             m = re.search(r'for <(.*)>;', str(val).replace('\r\n', '').replace('\n', ''))
             if m:
                 rf.append([proj(x) for x in re.split(r'>,\s*<', m.group(1))])
-        outs.append({'rc': [proj(r) for r in v.recipients], 'hd': list(v.headers.keys()), 'rf': rf,
+        outs.append({'rc': [proj(r) for r in v.recipients], 'hd': [CANON.get(k_.lower(), k_) for k_ in v.headers.keys()], 'rf': rf,
                      'ro': oid(v.recipients), 'ho': oid(v.headers), 'co': oid(v.client),
                      'sender_ok': v.sender == 's@x', 'body_ok': v.message == BODY})
     # alias probe: change each stored envelope, the others must not notice
     alias = False
     snap = lambda v: (list(v.recipients), [(k, str(x)) for k, x in v.headers.items()], dict(v.client))  # noqa
-    for i, v in enumerate(envs):
-        before = [snap(w) for j, w in enumerate(envs) if j != i]
+    for i, v in enumerate(allenvs):
+        before = [snap(w) for j, w in enumerate(allenvs) if j != i]
         v.recipients.append('probe@p')
         v.headers['X-Probe'] = 'p'
         v.client['probe'] = i
-        after = [snap(w) for j, w in enumerate(envs) if j != i]
+        after = [snap(w) for j, w in enumerate(allenvs) if j != i]
         if before != after:
             alias = True
         v.recipients.pop()
@@ -117,9 +138,13 @@ def main():
     hkeys = sorted(HDRS)
 
     def emit(chain, rcpts, hk):
-        ev = run_case(chain, rcpts, hk)
+        # one in three: the second of two equal messages through the same policy objects; one in three: field names respelled
+        nth = 2 if rnd.random() < 0.34 else 1
+        block = respell(HDRS[hk], rnd) if rnd.random() < 0.34 else None
+        ev = run_case(chain, rcpts, hk, nth=nth, block=block)
         stats['executions'] += 1
-        cls = 'split' if any(p in ('RS', 'DS', 'ECHO') for p in chain) and len(rcpts) > 1 else 'plain'
+        cls = ('split' if any(p in ('RS', 'DS', 'ECHO') for p in chain) and len(rcpts) > 1 else 'plain') + ('-second' if nth == 2 else '') + \
+            ('-respelled' if block is not None and block != HDRS[hk] else '')
         if cls == 'split':
             stats['splitting_chains'] += 1
         f.write(json.dumps({'id': shard + n[0] * nshards, 'cls': cls, 'chain': list(chain), 'rc': [proj(r) for r in rcpts],
